@@ -432,8 +432,65 @@ pub fn run_random(seed: u64, count: usize, out: &mut dyn Write) {
 /// Structural mutations: whole chunks of an uncompressed binary file duplicated, dropped, swapped or moved;
 /// the text of every XML element and the value of every XML attribute replaced by hostile strings (multi-byte
 /// characters at every length, overlong numbers, empty text ...).  Decoders must answer ok or err.
+/// Typed blobs: the readers decode the bytes of a string-like value into Tags / Attributes / MaterialColors when the
+/// database says the property has that type, and fall back to a BinaryString when they do not decode.  Files whose
+/// blob is a valid value cut to every length (and a few patterns of every length) are produced by the writers
+/// themselves (they store the bytes of a BinaryString given for such a property as they are) and read back.
+fn run_blobs(out: &mut dyn Write) {
+    use rbx_dom_weak::types::{BinaryString, Color3uint8, MaterialColors, Tags, TerrainMaterials};
+    let mut mc = MaterialColors::new();
+    mc.set_color(TerrainMaterials::Grass, Color3uint8::new(1, 2, 3));
+    let mut tags = Tags::new();
+    for t in ["alpha", "beta gamma", "\u{e9}t\u{e9}", "d", "eeeeeeeeeeeeeeeeeeeeeeeeeeeeeeeeeeeeeeeeeee"] {
+        tags.push(t);
+    }
+    let mut attrs = Attributes::new();
+    attrs.insert("A".into(), Variant::Float64(1.5));
+    attrs.insert("Bb".into(), Variant::String("xyz".into()));
+    attrs.insert("C".into(), Variant::Vector3(Vector3::new(1.0, 2.0, 3.0)));
+    attrs.insert("D".into(), Variant::Bool(true));
+    let mut attr_bytes = Vec::new();
+    attrs.to_writer(&mut attr_bytes).unwrap();
+    let cases: [(&str, &str, Vec<u8>); 3] =
+        [("Terrain", "MaterialColors", mc.encode()), ("Folder", "Tags", tags.encode()), ("Folder", "AttributesSerialize", attr_bytes)];
+    for (class, prop, valid) in cases.iter() {
+        let mut blobs: Vec<(String, Vec<u8>)> = Vec::new();
+        for n in 0..=valid.len() + 6 {
+            blobs.push((format!("cut{}", n), valid.iter().copied().chain(std::iter::repeat(0)).take(n).collect()));
+            blobs.push((format!("ff{}", n), vec![0xff; n]));
+            blobs.push((format!("ramp{}", n), (0..n).map(|i| (i * 37 + 11) as u8).collect()));
+        }
+        for (bn, blob) in blobs {
+            let mut dom = WeakDom::new(InstanceBuilder::new("DataModel"));
+            let root = dom.root_ref();
+            let r = dom.insert(root, InstanceBuilder::new(*class).with_name("B").with_property(*prop, Variant::BinaryString(BinaryString::from(blob))));
+            for target in ["bin_blob", "xml_blob"] {
+                let mut buf = Vec::new();
+                let written = catch_unwind(AssertUnwindSafe(|| {
+                    if target == "bin_blob" {
+                        rbx_binary::Serializer::new().compression_type(CompressionType::None).serialize(&mut buf, &dom, &[r]).is_ok()
+                    } else {
+                        rbx_xml::to_writer_default(&mut buf, &dom, &[r]).is_ok()
+                    }
+                }));
+                if !matches!(written, Ok(true)) {
+                    continue;
+                }
+                let id = format!("struct:{}:{}.{}:{}", target, class, prop, bn);
+                if !start(out, &id) {
+                    continue;
+                }
+                let (o, d) = decode(target, &buf[..]);
+                emit(out, json!({"op": "fault", "ep": id, "kind": "structure", "target": target, "variant": format!("{}.{}:{}", class, prop, bn), "outcome": o,
+                                 "site": if o == "panic" { d } else { String::new() }}));
+            }
+        }
+    }
+}
+
 pub fn run_structure(out: &mut dyn Write) {
     install_hook();
+    run_blobs(out);
     for (target, data) in corpus() {
         if target == "bin_none" || target == "bin_all" {
             // header is 32 bytes; chunk = 16 byte frame + stored bytes
